@@ -95,7 +95,8 @@ Definition consequences (d : mgraph) (ord : list nat) : bool * bool :=
    L [I 1; p]            -> same with oracle = 2 (not computed)
    L [I 2; p; d]         -> L [I (consistent_extb p d)]           witness checker
    L [I 3; d1; d2]       -> L [I (meqb d1 d2)]                    Markov equivalence checker (both DAGs)
-   L [I 4; d; ord]       -> L [I fixpoint; I equivalent]          model-side consequences *)
+   L [I 4; d; ord]       -> L [I fixpoint; I equivalent]          model-side consequences
+   L [I 5; p]            -> L [I model_ok]                        model only (long graphs: no validity re-check, no oracle) *)
 Definition run_case (s : sx) : sx :=
   let g := sx_graph (sx_nth s 1) in
   match sx_nat (sx_nth s 0) with
@@ -114,5 +115,6 @@ Definition run_case (s : sx) : sx :=
   | 4 => let d := mkd (V g) (D g) in
          let r := consequences d (sx_nats (sx_nth s 2)) in
          L [of_bool (fst r); of_bool (snd r)]
+  | 5 => L [of_bool (match pdag_model (mkp (V g) (D g) (U g)) with Some _ => true | None => false end)]
   | _ => L []
   end.
